@@ -52,7 +52,7 @@ func genURLFor(t *rapid.T, m *Model) string {
 }
 
 var urlPositions = [][2]string{{"a", "href"}, {"area", "href"}, {"base", "href"}, {"link", "href"}, {"blockquote", "cite"}, {"del", "cite"}, {"ins", "cite"}, {"q", "cite"},
-	{"audio", "src"}, {"embed", "src"}, {"iframe", "src"}, {"img", "src"}, {"input", "src"}, {"source", "src"}, {"track", "src"}, {"video", "src"}, {"script", "src"}}
+	{"audio", "src"}, {"embed", "src"}, {"iframe", "src"}, {"img", "src"}, {"image", "src"}, {"input", "src"}, {"source", "src"}, {"track", "src"}, {"video", "src"}, {"script", "src"}}
 
 var urlOpKinds = []string{"RequireParseableURLs", "AllowRelativeURLs", "AllowRelativeURLs", "AllowURLSchemes", "AllowURLSchemes", "AllowURLSchemes", "AllowURLSchemesMatching", "AllowURLSchemeWithCustomPolicy",
 	"AllowURLSchemeWithCustomPolicy", "RewriteSrc", "RequireNoFollowOnLinks", "RequireNoFollowOnFullyQualifiedLinks", "RequireNoReferrerOnLinks", "AddTargetBlankToFullyQualifiedLinks",
